@@ -203,9 +203,58 @@ def defsIn (n : Nat) (defs : List LayerDef) : Bool :=
 
 def totalCaps (defs : List LayerDef) : Nat := (defs.map fun d => d.caps.length).sum
 
-/-- `Highlighter::highlight`: initial layers `top`, `sort_layers`, then drain. -/
+/-! ## Termination measure
+
+`capW`: every capture costs 2 iterations at most (it is taken, and the end it may push is popped);
+an injection capture also pays for the layers it creates.  `wt defs j` = weight of layer `j`,
+computed top-down with a depth bound that suffices when injections only refer to LARGER ids
+(`refsUp`, which the harness's construction guarantees and the driver checks on every real case). -/
+
+def idsW (w : Nat → Nat) : List Nat → Nat
+  | [] => 0
+  | j :: r => 1 + w j + idsW w r
+
+def capW (w : Nat → Nat) (c : RCap) : Nat :=
+  match c.kind with
+  | .hl _ => 2
+  | .inj ids => 2 + idsW w ids
+
+def capsW (w : Nat → Nat) : List RCap → Nat
+  | [] => 0
+  | c :: r => capW w c + capsW w r
+
+def wtK (defs : List LayerDef) : Nat → Nat → Nat
+  | 0, _ => 0
+  | k + 1, j =>
+    match defs[j]? with
+    | none => 0
+    | some d => capsW (fun j' => if j < j' then wtK defs k j' else 0) d.caps
+
+/-- Weight of layer `j`. -/
+def wt (defs : List LayerDef) (j : Nat) : Nat := wtK defs (defs.length - j) j
+
+/-- Every injection capture of layer `i` refers only to layers with a larger id (the layer table is
+a forest written in creation order). -/
+def refsUp (defs : List LayerDef) : Bool :=
+  (List.range defs.length).all fun i =>
+    match defs[i]? with
+    | none => true
+    | some d => d.caps.all fun c =>
+      match c.kind with
+      | .hl _ => true
+      | .inj ids => ids.all fun j => i < j
+
+/-- Weight of a live layer and of a layer list: the number of loop iterations still possible. -/
+def layerW (defs : List LayerDef) (l : MLayer) : Nat := l.ends.length + capsW (wt defs) l.caps
+
+def sumW (f : MLayer → Nat) : List MLayer → Nat
+  | [] => 0
+  | l :: r => f l + sumW f r
+
+/-- `Highlighter::highlight`: initial layers `top`, `sort_layers`, then drain.  The fuel is the
+termination measure of the initial state (+1 for the final iteration). -/
 def mergeLayers (defs : List LayerDef) (top : List Nat) (n : Nat) : List Ev × Bool :=
-  let layers := top.filterMap (mkLayer defs)
-  runM defs n (2 * totalCaps defs + defs.length + 4) { layers := sortLayers layers }
+  let layers := sortLayers (top.filterMap (mkLayer defs))
+  runM defs n (sumW (layerW defs) layers + 1) { layers := layers }
 
 end TsVerif.C17
